@@ -287,8 +287,8 @@ class Server(object):
                 self.md5_answers.append(self.p_ok)
                 # the formats md5sum writes: text mode (two spaces), binary mode (' *'), and a
                 # hand-written single space
-                tail = ['  file.bin\n', ' *file.bin\n', ' file.bin'][
-                    (int(self.script.get('chunk') or 0) + len(self.requests)) % 3]
+                tail = ['  file.bin\n', ' *file.bin\n', ' file.bin', '  my data file.bin\n'][
+                    (int(self.script.get('chunk') or 0) + len(self.requests)) % 4]
                 return Response(url, text=self.p_ok + tail)
             if kind == 'wrong':
                 self.md5_answers.append(self.p_wrong)
